@@ -49,7 +49,7 @@ def same(a, b):
     if isinstance(a, dict): return list(a) == list(b) and all(same(a[k], b[k]) for k in a)
     return a == b
 for it in range(N):
-    ctx = R.choice(['set_top', 'set_top', 'binding_value', 'list_element', 'item_assign', 'nested_assign', 'binding_ctor', 'from_dict', 'ctor_then_assign', 'ctor_then_assign', 'empty_then_assign'])
+    ctx = R.choice(['set_top', 'set_top', 'binding_value', 'list_element', 'item_assign', 'nested_assign', 'binding_ctor', 'from_dict', 'ctor_then_assign', 'ctor_then_assign', 'empty_then_assign', 'overwrite_parsed', 'overwrite_parsed'])
     try:
         if ctx == 'set_top': v = dct(2); make = lambda: AttributeSet(values=v).rebuild(); want = v
         elif ctx == 'from_dict': v = dct(2); make = lambda: AttributeSet.from_dict(v).rebuild(); want = v
@@ -76,6 +76,23 @@ for it in range(N):
                 for k, x in extra.items(): s[k] = x
                 return s.rebuild()
             v = dict(extra); want = v
+        elif ctx == 'overwrite_parsed':
+            # item assignment over values that came from PARSED text (string, int, bool, null, list, nested set), same or other type
+            BASE = '{\n  s = "old";\n  i = 1;\n  b = true;\n  n = null;\n  l = [ 1 ];\n  d = {\n    s = "in";\n    i = 2;\n  };\n}\n'
+            base_v = {'s': 'old', 'i': 1, 'b': True, 'n': None, 'l': [1], 'd': {'s': 'in', 'i': 2}}
+            ups = [(R.choice([('s',), ('i',), ('b',), ('n',), ('l',), ('d', 's'), ('d', 'i'), ('s',), ('d', 's')]), R.choice([scalar, string, string, lambda: lst(1)])()) for _ in range(R.randint(1, 3))]
+            def make():
+                src = parse(BASE)
+                for path, x in ups:
+                    if len(path) == 1: src[path[0]] = x
+                    else: src[path[0]][path[1]] = x
+                return src.rebuild()
+            import copy
+            v = copy.deepcopy(base_v)
+            for path, x in ups:
+                if len(path) == 1: v[path[0]] = x
+                else: v[path[0]][path[1]] = x
+            want = v
         elif ctx == 'item_assign':
             x = R.choice([scalar, lambda: lst(1), lambda: dct(1)])(); v = {'a': 1, 'k': x}
             def make():
